@@ -150,6 +150,8 @@ class PressureControlComponent(BranchWOInternalsComponent):
         p_to = branch_results["p_to"][f:t]
         p_from = branch_results["p_from"][f:t]
         res_table["deltap_bar"].values[:] = p_to - p_from
+        # controllers that are out of service or not supplied do not have results
+        res_table["deltap_bar"].values[~get_lookup(net, "branch", "active_hydraulics")[f:t]] = np.nan
 
     @classmethod
     def get_component_input(cls):
